@@ -62,14 +62,22 @@ PROP = {'title': 'Axis-aligned boxes behave as half-open point sets',
                  'invocations with every index exactly once are asserted and axis i must be made of the one pair returned for '
                  'index i; the (undocumented) ascending order of the indices is only counted as information; a throwing callback '
                  'must propagate its exception with no further invocation and no leaked heap_int cell',
-                 'heap_int: reading a moved-from coordinate is reported as read_of_moved_from_scalar; the state of a moved-from box or '
-                 'vector itself is not asserted',
-                 'extend_bounding_box(box,point) is not in the statement; it is checked against the closed-hull reading that its '
-                 "documentation and the repository's test fix, and the cases where the point is not a member of the (half-open) "
-                 'result are counted as information',
+                 'heap_int: reads of a moved-from coordinate are counted as information (a harmful read shows in the checked '
+                 'results); the state of a moved-from box or vector itself is not asserted',
+                 'extend_bounding_box(box,point) is not in the statement; verdicts: unchanged box when the point is inside, lower '
+                 'corner min(p,pos), upper corner not below the closed hull max(p,max) and (integer-like T) not above the half-open '
+                 'hull max(p+1,max); a result between the two readings and the cases where the point is not a member of the '
+                 '(half-open) result are counted as information',
+                 'demoted to information counters after the over-assertion audit (recorded under info:<sig>, never a verdict): '
+                 'corner_points order (not documented for corner_points), left/right/top/bottom/front/back (undocumented '
+                 'convention), center lying inside a non-empty box, operator< where the (pos,size) and (pos,max) lexicographic '
+                 'readings differ (inverted unsigned boxes), reads of a moved-from heap_int coordinate, off-lattice corners of an '
+                 'EMPTY intersection when the inputs have no common point, corners of an EMPTY shrink result, the order of the '
+                 'init_max/init_dim callback indices; center accepts rounding either way (integers) and pos+size/2 or (pos+max)/2 '
+                 'within a few ulps (floating point); floating-point corner_points accept max_i itself or pos_i+size_i',
                  'box::distance is compared with the documented interval distance per axis only where the documentation determines '
                  'the value (no containment with a shared end point; no negative result for unsigned T)',
-                 'center is asserted to be pos+size/2 rounded down and a point of the box for non-inverted integer boxes',
+                 'center is asserted to be within 1/2 of the real centre for non-inverted integer boxes',
                  'coordinate types narrower than int are not instantiable (vector arithmetic promotes to int) and are not covered; '
                  'stretch_relative, componentwise_equal and output are outside the statement; structure_cast only as the identity '
                  'cast']}
